@@ -1,0 +1,81 @@
+//go:build verif
+
+// Verification hook H3 (add-only, compiled only with -tags verif; see /verif/DESIGN.md §3 "Hooks").
+//
+// It lets a test harness run the REAL drill-master actor (the cluster manager of a node,
+// drillmaster_actor.go) on a plain vivid.ActorSystem: no memberlist, no sockets, no gossip.
+// Nothing here changes the behaviour of the package; it only gives access to the unexported
+// constructor, to the unexported request message and to a read-only snapshot of `members`.
+package cluster
+
+import (
+	"sort"
+
+	"github.com/kercylan98/minotaur/engine/vivid"
+	"github.com/kercylan98/minotaur/engine/vivid/cluster/internal/cm"
+)
+
+// VerifNewNode builds the part of a cluster ActorSystem that the drill-master reads: the embedded
+// plain vivid system and the configuration (ability table), configured through the public
+// ActorSystemConfiguration API (WithAbility, ...). memberlist is never started.
+func VerifNewNode(system *vivid.ActorSystem, configurator ...ActorSystemConfigurator) *ActorSystem {
+	config := newActorSystemConfiguration()
+	for _, c := range configurator {
+		c.Configure(config)
+	}
+	return &ActorSystem{
+		ActorSystem: system,
+		config:      config,
+		metadata:    new(cm.Metadata),
+		state:       newActorSystemState(),
+	}
+}
+
+// VerifDrillmasterProvider returns a provider of this node's drill-master actor, exactly as
+// ActorSystem.start spawns it (newDrillmasterActor(sys)). The returned actor forwards every message
+// to the real drill-master, except VerifMembersQuery which it answers itself (read-only).
+func (sys *ActorSystem) VerifDrillmasterProvider() vivid.ActorProvider {
+	return vivid.FunctionalActorProvider(func() vivid.Actor {
+		return &verifDrillmaster{drillmasterActor: newDrillmasterActor(sys)}
+	})
+}
+
+// VerifActorOfRequest builds the internal request that ActorOfC sends to a node's drill-master.
+func VerifActorOfRequest(identity, ability string) vivid.Message {
+	return &cm.ActorOf{Identity: identity, Ability: ability}
+}
+
+// VerifMembersQuery asks the drill-master for a snapshot of its `members` table.
+// It is answered with a []VerifMember sorted by (Ability, Identity).
+type VerifMembersQuery struct{}
+
+// VerifMember is one entry of drillmasterActor.members: ability => identity => ref.
+type VerifMember struct {
+	Ability  string
+	Identity string
+	Ref      vivid.ActorRef
+}
+
+type verifDrillmaster struct {
+	*drillmasterActor
+}
+
+func (v *verifDrillmaster) OnReceive(ctx vivid.ActorContext) {
+	if _, ok := ctx.Message().(VerifMembersQuery); ok {
+		var snapshot = make([]VerifMember, 0)
+		for ability, identities := range v.members {
+			for identity, ref := range identities {
+				snapshot = append(snapshot, VerifMember{Ability: ability, Identity: identity, Ref: ref})
+			}
+		}
+		sort.Slice(snapshot, func(i, j int) bool {
+			if snapshot[i].Ability != snapshot[j].Ability {
+				return snapshot[i].Ability < snapshot[j].Ability
+			}
+			return snapshot[i].Identity < snapshot[j].Identity
+		})
+		ctx.Reply(snapshot)
+		return
+	}
+	v.drillmasterActor.OnReceive(ctx)
+}
